@@ -54,3 +54,9 @@ Print Assumptions c15_show_line_pinned_refuted.
 Theorem c15_command_line_total : forall line, exists r, command_line line = Ok r.
 Proof. exact command_line_total. Qed.
 Print Assumptions c15_command_line_total.
+
+(* the replacement list of every #define is cut into nodes without a fault: every string, every parameter list, any nesting of __VA_OPT__ groups *)
+Theorem c15_save_expansion_total : forall dfuel names variadic exp, length exp < dfuel ->
+  exists l, save_expansion dfuel names variadic exp = Ok l.
+Proof. exact save_expansion_total. Qed.
+Print Assumptions c15_save_expansion_total.
